@@ -74,6 +74,7 @@ class Scheduler:
         self.local = threading.local()
         self.step_hook: Optional[Callable[[Actor], None]] = None
         self.yield_filter: Optional[Callable[[str, str, tuple], bool]] = None   # None = every point parks
+        self.locklog: List[dict] = []  # lock-layer trace: every primitive on the lock file (open / flock / close), per FileLock handle
 
     # ---------------------------------------------------------------- actors
     def spawn(self, name: str, fn: Callable[[], Any]) -> Actor:
@@ -493,10 +494,72 @@ def patched(sched: Scheduler, backend_factory: Callable[[str], Any], shared_rloc
 
     import datashard.file_lock as fl
 
+    def _lock_handle() -> Any:
+        """The FileLock instance on whose behalf a primitive of datashard.file_lock runs (nearest `self` with a lock_file)."""
+        import sys
+        f = sys._getframe(2)
+        while f is not None:
+            slf = f.f_locals.get("self")
+            if slf is not None and hasattr(slf, "lock_file"):
+                return slf
+            f = f.f_back
+        return None
+
+    def _locklog(prim: str, fd: Any, ok: Any, known: bool = True) -> None:
+        """One primitive on the lock file, as the kernel answered it (sched.locklog: the lock-layer trace, separate from the
+        storage log; actors only -- setup code holds no lock while actors run)."""
+        a = sched.me()
+        if a is None:
+            return
+        h = _lock_handle()
+        sched.locklog.append({"actor": a.name, "pid": os.getpid(), "handle": id(h) if h is not None else None,
+                              "prim": prim, "fd": fd if isinstance(fd, int) else None, "ok": ok, "known": known})
+
     class _FcntlProxy:
-        """datashard.file_lock's view of fcntl: with `sched.fine_locks`, a non-blocking exclusive flock attempt is a
-        scheduling point of its own, BETWEEN the open of the lock file and the flock (flock locks the inode the open
-        returned, not the path: what happens to the path in between matters)."""
+        """datashard.file_lock's view of fcntl.  The lock vocabulary of the schedulers and of Model/ProcLock.v is EXPLICIT:
+        `flock` (non-blocking exclusive attempt, unlock) is the one locking primitive they know.  Constants pass through; any
+        other callable of the module (lockf, fcntl, ioctl: primitives with another ownership discipline) still runs, but is
+        recorded as an operation `LockPrimitive:<name>` that no projection knows -- a correspondence failure, never a silent
+        pass-through.  With `sched.fine_locks`, a non-blocking exclusive flock attempt is a scheduling point of its own,
+        BETWEEN the open of the lock file and the flock (flock locks the inode the open returned, not the path: what happens
+        to the path in between matters); with `sched.fine_locks == "all"` EVERY primitive on the lock file is one (LockOpen,
+        LockFlock, LockUnlock, LockClose: e.g. the window inside release() between the unlock and the close)."""
+
+        def __init__(self, real: Any):
+            self._real = real
+
+        def __getattr__(self, name: str) -> Any:
+            v = getattr(self._real, name)
+            if not callable(v):
+                return v
+
+            def unknown(*a: Any, **kw: Any) -> Any:
+                if sched.me() is not None:
+                    sched.yield_point("LockPrimitive:" + name, "dlock")
+                    _locklog(name, a[0] if a else None, None, known=False)
+                return v(*a, **kw)
+            return unknown
+
+        def flock(self, fd: Any, flags: int) -> Any:
+            r = self._real
+            attempt = bool(flags & r.LOCK_EX) and bool(flags & r.LOCK_NB)
+            if getattr(sched, "fine_locks", False) and sched.me() is not None and attempt:
+                sched.yield_point("LockFlock", "dlock")
+            prim = "trylock" if attempt else ("unlock" if flags & r.LOCK_UN else "flock:%d" % flags)
+            if prim == "unlock" and getattr(sched, "fine_locks", False) == "all" and sched.me() is not None:
+                sched.yield_point("LockUnlock", "dlock")
+            try:
+                out = r.flock(fd, flags)
+            except OSError:
+                _locklog(prim, fd, False, known=(attempt or bool(flags & r.LOCK_UN)))
+                raise
+            _locklog(prim, fd, True, known=(attempt or bool(flags & r.LOCK_UN)))
+            return out
+
+    class _OsProxy:
+        """datashard.file_lock's view of os: open / close of the lock file are recorded in the lock-layer trace; anything
+        that changes the directory entry of the lock file (unlink, remove, rename, replace) is recorded as a primitive outside
+        the vocabulary."""
 
         def __init__(self, real: Any):
             self._real = real
@@ -504,13 +567,39 @@ def patched(sched: Scheduler, backend_factory: Callable[[str], Any], shared_rloc
         def __getattr__(self, name: str) -> Any:
             return getattr(self._real, name)
 
-        def flock(self, fd: Any, flags: int) -> Any:
-            if getattr(sched, "fine_locks", False) and sched.me() is not None and (flags & self._real.LOCK_EX) and (flags & self._real.LOCK_NB):
-                sched.yield_point("LockFlock", "dlock")
-            return self._real.flock(fd, flags)
+        def open(self, path: Any, flags: int, *a: Any, **kw: Any) -> Any:
+            if getattr(sched, "fine_locks", False) == "all" and sched.me() is not None:
+                sched.yield_point("LockOpen", "dlock")
+            try:
+                fd = self._real.open(path, flags, *a, **kw)
+            except OSError:
+                _locklog("open", None, False, known=not (flags & self._real.O_EXCL))
+                raise
+            _locklog("open", fd, True, known=not (flags & self._real.O_EXCL))
+            return fd
+
+        def close(self, fd: Any) -> Any:
+            if getattr(sched, "fine_locks", False) == "all" and sched.me() is not None:
+                sched.yield_point("LockClose", "dlock")
+            _locklog("close", fd, True)
+            return self._real.close(fd)
+
+        def _outside(name: str) -> Any:       # noqa: N805
+            def f(self: Any, *a: Any, **kw: Any) -> Any:
+                _locklog("os." + name, None, None, known=False)
+                return getattr(self._real, name)(*a, **kw)
+            return f
+        unlink = _outside("unlink")
+        remove = _outside("remove")
+        rename = _outside("rename")
+        replace = _outside("replace")
+        dup = _outside("dup")
+        dup2 = _outside("dup2")
     saved["fl_fcntl"] = getattr(fl, "fcntl", None)
     if saved["fl_fcntl"] is not None:
         fl.fcntl = _FcntlProxy(saved["fl_fcntl"])
+    saved["fl_os"] = fl.os
+    fl.os = _OsProxy(saved["fl_os"])
     saved["get_fs"] = dops.DataFileManager._get_arrow_filesystem
     dops.DataFileManager._get_arrow_filesystem = lambda self: None      # never build a real pyarrow S3 filesystem
     sb.create_storage_backend = factory
@@ -537,3 +626,4 @@ def patched(sched: Scheduler, backend_factory: Callable[[str], Any], shared_rloc
         dops.DataFileManager._get_arrow_filesystem = saved["get_fs"]
         if saved["fl_fcntl"] is not None:
             fl.fcntl = saved["fl_fcntl"]
+        fl.os = saved["fl_os"]
